@@ -543,6 +543,7 @@ func SpecPred(p *core.Prog, r *core.Report) {
 		{"(*SpecValidator).validatePathParamPresence", "noParameterInPathMsg", []string{`^!flag\{.* == .*\}$`}, nil, "a placeholder of the path has no declared path parameter"},
 		{"(*SpecValidator).validatePathParamPresence", "pathParamNotInPathMsg", []string{`^!flag\{.* == .*\}$`}, nil, "a declared path parameter has no placeholder in the path"},
 		{"(*SpecValidator).validateRequiredProperties", "requiredButNotDefinedMsg", []string{`^!flag\{found\(.*Properties\[`, `^!flag\{.*MatchString`, `^!flag\{.*AdditionalProperties\.Allows`, `^!flag\{.*\|[^|]*\(recv,[^|]*AdditionalProperties\.Schema\)`}, nil, "a required property is defined by properties, patternProperties or additionalProperties (allowed without a schema, or — recursively — defined by the schema of the additional properties)"},
+		{"(*SpecValidator).validateRequiredProperties", "validateRequiredProperties", []string{`^!flag\{found\(.*Properties\[`, `^!flag\{.*MatchString`}, nil, "the schema of additionalProperties is only consulted (and its complaints merged) for a name that neither properties nor patternProperties define"},
 		{"(*SpecValidator).validateItems", "arrayInParamRequiresItemsMsg", []string{`TypeName\(.*\) == "array"$`, `ItemsTypeName\(.*\) == ""$`}, nil, "an array parameter declares its items"},
 		{"(*SpecValidator).validateItems", "arrayInHeaderRequiresItemsMsg", []string{`TypeName\(.*\) == "array"$`, `ItemsTypeName\(.*\) == ""$`}, nil, "an array header declares its items"},
 		{"(*SpecValidator).validateSchemaItems", "arrayRequiresItemsMsg", []string{`^Contains\(.*"array"\)$`}, []string{`^!Contains\(.*"array"\)$`}, "an array schema declares its items"},
@@ -557,6 +558,9 @@ func SpecPred(p *core.Prog, r *core.Report) {
 	// leaves the document valid)
 	nCat := 0
 	for _, cl := range clauses {
+		if !strings.HasSuffix(cl.msg, "Msg") {
+			continue // not a message constructor (a recursive check whose result is merged)
+		}
 		for _, f := range p.Funcs {
 			if !p.InSubject(f) {
 				continue
